@@ -330,7 +330,7 @@ def expected_leaf(leafname: str, tag) -> Tuple[str, str, Dict[str, Any]]:
     d = LEAVES[leafname]
     tag = int(tag or 0)
     if d["kind"] == "ext":
-        return ("hvlib", leafname, {"tag": tag})
+        return (d.get("domain", "hvlib"), d.get("extname", leafname), {"tag": tag})
     if d["kind"] == "ideal":
         key = {"R": "r", "C": "c", "VCVS": "gain"}[leafname]
         return ("vlsir.primitives", d["vname"], {key: 1000 + tag})
